@@ -77,7 +77,7 @@ Definition attempt (s : astate) (o : aop) : option op :=
   match o with
   | ADirect d | APoll d | AHold d => Some d
   | ARepoll k => tget k (held s)
-  | ADropFut _ | ASetTask _ => None
+  | ADropFut _ | ASetTask _ | ARewrap _ => None
   end.
 
 (** the synchronous operation an async step performs: the attempted one, if the step answers with a result *)
@@ -222,7 +222,7 @@ Proof.
   intros R Pf OK. unfold performed in Pf.
   destruct (attempt s o) as [g|] eqn:At; [|discriminate].
   destruct (visible (fst (snd (astep s o)))) eqn:V; [|discriminate]. inversion Pf; subst g; clear Pf.
-  destruct o as [d|d|d|k|k|n]; cbn [attempt] in At; try discriminate.
+  destruct o as [d|d|d|k|k|n|k]; cbn [attempt] in At; try discriminate.
   - (* ADirect *) inversion At; subst d; clear At. cbn [astep] in *.
     destruct (direct_of f (base s)) as [k|]; [|discriminate V].
     destruct (free_iter k s); [|discriminate V].
@@ -251,7 +251,7 @@ Lemma astep_silent s a o : Rel (base s) a -> performed s o = None ->
   Rel (base (fst (astep s o))) a /\ snd (snd (astep s o)) = [].
 Proof.
   intros R Pf. unfold performed in Pf.
-  destruct o as [d|d|d|k|k|n]; cbn [attempt] in Pf.
+  destruct o as [d|d|d|k|k|n|k]; cbn [attempt] in Pf.
   - (* ADirect *) cbn [astep] in *.
     destruct (direct_of d (base s)) as [k|]; [|auto].
     destruct (free_iter k s); [|auto].
@@ -279,6 +279,7 @@ Proof.
     intros V. rewrite V in Pf. discriminate.
   - (* ADropFut *) cbn [astep]. destruct (tget k (held s)); auto.
   - (* ASetTask *) cbn [astep]. auto.
+  - (* ARewrap *) cbn [astep]. destruct (free_iter k s && usable k (base s) && negb (det (it_of k (base s)))); auto.
 Qed.
 
 (** ** 3. Whole histories *)
@@ -380,7 +381,7 @@ Qed.
 Lemma held_step k f s o : tget k (held s) = Some f -> releases k s o = false ->
   tget k (held (fst (astep s o))) = Some f.
 Proof.
-  intros Hh Rl. destruct o as [d|d|d|k'|k'|n]; cbn [releases] in Rl.
+  intros Hh Rl. destruct o as [d|d|d|k'|k'|n|k']; cbn [releases] in Rl.
   - cbn [astep]. destruct (direct_of d (base s)) as [j|]; [|exact Hh]. destruct (free_iter j s); [|exact Hh].
     destruct (step (base s) d). exact Hh.
   - cbn [astep]. destruct (future_of d) as [j|]; [|exact Hh].
@@ -401,13 +402,14 @@ Proof.
     rewrite tget_tset_other; [exact Hh|]. intros ->.
     destruct (stage_eqb_spec k k); [discriminate Rl | congruence].
   - exact Hh.
+  - cbn [astep]. destruct (free_iter k' s && usable k' (base s) && negb (det (it_of k' (base s)))); exact Hh.
 Qed.
 
 (** ... and a releasing step frees the iterator *)
 Lemma held_release k f s o : tget k (held s) = Some f -> releases k s o = true ->
   tget k (held (fst (astep s o))) = None.
 Proof.
-  intros Hh Rl. destruct o as [d|d|d|k'|k'|n]; cbn [releases] in Rl; try discriminate Rl.
+  intros Hh Rl. destruct o as [d|d|d|k'|k'|n|k']; cbn [releases] in Rl; try discriminate Rl.
   - apply andb_prop in Rl as [Ek Np]. destruct (stage_eqb_spec k k') as [<-|]; [|discriminate Ek].
     destruct (astep_repoll_shape s f k Hh) as (Eo & _ & ->). rewrite Eo in Np.
     destruct (is_pending (fst (snd (poll k f s)))); [discriminate Np|]. apply tget_tset_same.
@@ -463,7 +465,7 @@ Proof. intros k f. destruct k; simpl; discriminate. Qed.
 
 Lemma held_wf_step s o : held_wf s -> held_wf (fst (astep s o)).
 Proof.
-  intros Wf k f. destruct o as [d|d|d|k'|k'|n].
+  intros Wf k f. destruct o as [d|d|d|k'|k'|n|k'].
   - cbn [astep]. destruct (direct_of d (base s)) as [j|]; [|apply Wf]. destruct (free_iter j s); [|apply Wf].
     destruct (step (base s) d). apply Wf.
   - cbn [astep]. destruct (future_of d) as [j|]; [|apply Wf].
@@ -487,6 +489,7 @@ Proof.
     + rewrite tget_tset_same. discriminate.
     + rewrite tget_tset_other by exact Ne. apply Wf.
   - apply Wf.
+  - cbn [astep]. destruct (free_iter k' s && usable k' (base s) && negb (det (it_of k' (base s)))); apply Wf.
 Qed.
 
 Lemma held_wf_run h : forall s, held_wf s -> held_wf (fst (arun s h)).
@@ -506,7 +509,7 @@ Proof.
     destruct (visible (fst (snd (astep s o)))) eqn:V; [|destruct Hin].
     destruct Hin as [<-|[]]. intros F.
     destruct (borrowed k f s Hh) as [_ B].
-    destruct o as [d|d|d|k'|k'|n]; cbn [attempt] in At; try discriminate At.
+    destruct o as [d|d|d|k'|k'|n|k']; cbn [attempt] in At; try discriminate At.
     + inversion At; subst d; clear At. cbn [astep] in V.
       destruct g'; cbn [future_of] in F; try discriminate F; cbn [direct_of] in V; try discriminate V.
     + inversion At; subst d. destruct (B g' F) as [E _]. rewrite E in V. discriminate V.
